@@ -216,7 +216,12 @@ pub struct Shared {
 
 impl Shared {
     pub fn new(beh: AppBehaviour, start: tokio::time::Instant) -> Self {
-        Shared { rec: Arc::new(Mutex::new(CbLog::default())), beh: Arc::new(Mutex::new(beh)), start, serial: Default::default() }
+        Shared {
+            rec: Arc::new(Mutex::new(CbLog::default())),
+            beh: Arc::new(Mutex::new(beh)),
+            start,
+            serial: Default::default(),
+        }
     }
 }
 
@@ -395,16 +400,28 @@ macro_rules! control_support {
                     let f: fn(&$t) -> (u8, f64) = $mirror;
                     let (ty, v) = f(&control);
                     // a unique, increasing time stamp per mirrored operation
-                    let serial = self.0.serial.fetch_add(1, std::sync::atomic::Ordering::Relaxed);
+                    let serial = self
+                        .0
+                        .serial
+                        .fetch_add(1, std::sync::atomic::Ordering::Relaxed);
                     let time = Time::Synchronized(Timestamp::new(2_000_000 + serial));
                     let info = database.transaction(|db| {
                         if ty == 2 {
-                            db.update2(index, &BinaryOutputStatus::new(v != 0.0, Flags::ONLINE, time), UpdateOptions::detect_event())
+                            db.update2(
+                                index,
+                                &BinaryOutputStatus::new(v != 0.0, Flags::ONLINE, time),
+                                UpdateOptions::detect_event(),
+                            )
                         } else {
-                            db.update2(index, &AnalogOutputStatus::new(v, Flags::ONLINE, time), UpdateOptions::detect_event())
+                            db.update2(
+                                index,
+                                &AnalogOutputStatus::new(v, Flags::ONLINE, time),
+                                UpdateOptions::detect_event(),
+                            )
                         }
                     });
-                    self.0.push(Cb::Mirror(ty, index, v, 2_000_000 + serial, info));
+                    self.0
+                        .push(Cb::Mirror(ty, index, v, 2_000_000 + serial, info));
                 }
                 status
             }
@@ -413,7 +430,10 @@ macro_rules! control_support {
 }
 
 control_support!(Group12Var1, |c| {
-    let on = matches!(c.code.op_type, crate::app::control::OpType::LatchOn | crate::app::control::OpType::PulseOn);
+    let on = matches!(
+        c.code.op_type,
+        crate::app::control::OpType::LatchOn | crate::app::control::OpType::PulseOn
+    );
     (2, if on { 1.0 } else { 0.0 })
 });
 control_support!(Group41Var1, |c| (6, c.value as f64));
@@ -422,8 +442,18 @@ control_support!(Group41Var3, |c| (6, c.value as f64));
 control_support!(Group41Var4, |c| (6, c.value));
 
 /// the recording callback objects, for rigs that build their own sessions
-pub fn callbacks(shared: &Shared) -> (Box<dyn OutstationApplication>, Box<dyn OutstationInformation>, Box<dyn ControlHandler>) {
-    (Box::new(App(shared.clone())), Box::new(Info(shared.clone())), Box::new(Controls(shared.clone())))
+pub fn callbacks(
+    shared: &Shared,
+) -> (
+    Box<dyn OutstationApplication>,
+    Box<dyn OutstationInformation>,
+    Box<dyn ControlHandler>,
+) {
+    (
+        Box::new(App(shared.clone())),
+        Box::new(Info(shared.clone())),
+        Box::new(Controls(shared.clone())),
+    )
 }
 
 // ---------------------------------------------------------------------------------------------
